@@ -32,6 +32,10 @@ CHECKS = {
    text="algebraic-law monitor over a universe of ~100 representative value expressions: ALL ordered pairs are evaluated inside one compilation for ==, !=, map-has-key, map-get, index, map-merge/map-remove/map.set sizes; reflexivity, symmetry, != as negation and agreement of every keyed operation with == are checked on the full matrices, all triples are decided via row equality (a==b must imply identical rows); duplicate-key map literals are compiled pairwise; random map operation sequences are compared with an insertion-ordered association-list model that uses grass's own == answers",
    note="no table of which values are equal is imposed (laws and cross-operation agreement only); NaN excluded; key sequences compared modulo ==",
    technique="runtime monitoring: law/invariant oracle over probe-observed truth matrices + association-list reference model for operation histories"),
+ "C15": dict(engine="vw+vp",
+   text="invariant monitor at the probe (every colour value produced by any workload: integer r/g/b in [0,255], alpha in [0,1]); all 148 named colours against the CSS Color 4 table embedded in the monitor and across spellings (name, hex, rgb(), rgba(), hsl(), hwb(), upper case: ==, equal channels, identical compressed text); all 4096 short-hex colours; hsl/hwb round trips, invert/complement involutions and identity-at-0 laws evaluated inside the compiler over a lattice of the 8-bit cube with +-1 neighbours (thorough: the whole 2^24 cube sharded by red channel); opacify/transparentize, scale/adjust/change-color and out-of-range arguments against their definitions",
+   note="laws are evaluated by the compiler itself and only mismatches are reported through the probe; out-of-range arguments may be clamped or rejected, never kept",
+   technique="runtime monitoring: invariant-at-hook over probe-observed colour values + law/round-trip oracle, exhaustive over names and short hex (thorough: the 8-bit cube)"),
 }
 
 ALL = ["C%02d" % i for i in range(1, 21)]
